@@ -54,6 +54,8 @@ func runC19(c *an.Ctx) {
 	c.Min("R19.7", 1)
 	rWriteOptsForwarded(c, "R19.8", "pkg/trait/electricpb")
 	c.Min("R19.8", 3)
+	r054as(c, "R19.10") // an empty update mask writes nothing, so the "does this write `normal`" guard and the write agree (shared with R05.4)
+	c.Min("R19.10", 1)
 	r0112(c, "R19.9") // allow_missing, create-if-absent, expected checks: an option does what its argument says (shared with R01.12)
 	c.Min("R19.9", 60)
 	c.Min("R19.1", 8)
